@@ -13,6 +13,7 @@ package wtxmgr
 //@     && bytes(bucketUnminedInputs) != bytes(bucketLockedOutputs) && bytes(bucketUnminedInputs) != bytes(bucketUnspent)
 //@     && bytes(bucketUnminedInputs) != bytes(bucketUnminedCredits) && bytes(bucketUnmined) != bytes(bucketUnminedCredits)
 //@     && bytes(bucketCredits) != bytes(bucketUnspent) && bytes(bucketCredits) != bytes(bucketDebits) && bytes(bucketDebits) != bytes(bucketUnspent)
+//@ axiom wtxmgr_sentinels_not_store_errors: !typeis(ErrDuplicateTx, Error) && ErrDuplicateTx != nil && !dbErr(ErrDuplicateTx)
 //@ axiom wtxmgr_errs: ErrUnknownOutput != nil && ErrOutputAlreadyLocked != nil && ErrOutputUnlockNotAllowed != nil
 //@     && ErrUnknownOutput != ErrOutputAlreadyLocked && ErrOutputAlreadyLocked != ErrOutputUnlockNotAllowed && ErrUnknownOutput != ErrOutputUnlockNotAllowed
 
@@ -139,3 +140,10 @@ package wtxmgr
 //@       ==> err == ErrOutputUnlockNotAllowed && DB_UNCHANGED()
 //@   ensures released: old(KNOWN(ns, op)) && old(LEASED_AT(ns, op, tns(clockVal(clk)))) && old(LEASE_ID_IS(ns, op, id)) && err == nil
 //@       ==> !HAS(B_LO(ns), KOP(op))
+
+// ---- C10: every function that can reach a database write reports a failed
+// write (applied to all such functions of the package, including closures) ----
+//@ auto C10 modifies wfault
+//@   ensures fault_reported: wfault && !old(wfault) ==> err != nil
+//@   ensures fault_not_masked_as_duplicate: wfault && !old(wfault) ==> err != ErrDuplicateTx
+//@   loopinv no_new_fault: wfault ==> old(wfault)
